@@ -41,13 +41,28 @@ def strategy(draw, tier="quick"):
     return c
 
 
-def _solver(pv, case, comp, t, p1=None, p2=None, model=None):
+def _solver(pv, case, comp, t, p1=None, p2=None, model=None, reported=None):
+    """reported = (process model, step): the standalone calculation then uses the permeate condition the model REPORTS for
+    that step, not the one the harness asked for."""
+    tp, pp = case["perm"]["T"], case["perm"]["p"]
+    if reported is not None:
+        m, k = reported
+        tp, pp = m.permeate_temperature[k], m.permeate_pressure[k]
+        tp = None if tp is None or tp != tp else tp
+        pp = None if pp is None or pp != pp else pp
+        require(_same_cond(tp, case["perm"]["T"]) and _same_cond(pp, case["perm"]["p"]),
+                "step %d reports permeate temperature %r / pressure %r, the process was run with %r / %r", k, tp, pp,
+                case["perm"]["T"], case["perm"]["p"])
     kw = dict(feed_temperature=t, composition=comp, precision=case["precision"],
-              permeate_temperature=case["perm"]["T"], permeate_pressure=case["perm"]["p"],
+              permeate_temperature=tp, permeate_pressure=pp,
               calculation_type=model or case["model"])
     if p1 is not None:
         kw.update(first_component_permeance=p1, second_component_permeance=p2)
     return call(pv.calculate_partial_fluxes, **kw)
+
+
+def _same_cond(a, b):
+    return (a is None and b is None) or (a is not None and b is not None and float(a) == float(b))
 
 
 def _same_fluxes(a, b, what, scale=None):
@@ -139,7 +154,7 @@ def _body(case, mix, pv, comp, t, perm, prec, mdl, w, classes):
         for k in range(len(model.partial_fluxes)):
             jk = model.partial_fluxes[k]
             alone = _solver(pv, case, model.feed_compositions[k], model.feed_temperature[k],
-                            model.permeances[k][0], model.permeances[k][1])
+                            model.permeances[k][0], model.permeances[k][1], reported=(model, k))
             require(not is_raised(alone), "standalone flux calculation at the reported state of step %d raised %r", k, alone)
             _same_fluxes(jk, alone, "step %d of the %s process (%s)" % (k, kind, mdl))
             # ideal models: the same membrane answers the standalone question at the reported temperature and composition
@@ -193,7 +208,8 @@ def check_nonideal(case):
                          None if is_raised(vac) else (float(vac[0]), float(vac[1])))
             for k in range(len(model.partial_fluxes)):
                 jk = model.partial_fluxes[k]
-                alone = _solver(pv, case, model.feed_compositions[k], float(model.feed_temperature[k]), model.permeances[k][0], model.permeances[k][1])
+                alone = _solver(pv, case, model.feed_compositions[k], float(model.feed_temperature[k]), model.permeances[k][0], model.permeances[k][1],
+                                reported=(model, k))
                 require(not is_raised(alone), "standalone flux calculation at the reported state of step %d raised %r", k, alone)
                 _same_fluxes(jk, alone, "step %d of the %s process (%s)" % (k, case["kind"], case["model"]))
                 yk = float(jk[0]) / (float(jk[0]) + float(jk[1]))
